@@ -131,3 +131,19 @@ Definition needed_for (F : option (list evbase)) (recursive : bool) : list N :=
        then contributes F recursive IN_MOVED_FROM || contributes F recursive IN_MOVED_TO
        else contributes F recursive b)
      all_flags.
+
+(* ------------------------------------------------------------------ what a watch with mask M is handed *)
+(* In place of an item the unfiltered watch's buffer hands over, the buffer of a watch whose kernel mask
+   is M (same paths, same pairing window) hands over: a single event only if the kernel sends it; a
+   paired move only if both halves are sent - with one half missing the other half arrives alone. *)
+Definition handed_over (M : N) (it : item) : list item :=
+  match it with
+  | Single e => if delivered M (r_mask e) then [Single e] else []
+  | Pair f t =>
+    match flag_in IN_MOVED_FROM M, flag_in IN_MOVED_TO M with
+    | true, true => [Pair f t]
+    | true, false => [Single f]
+    | false, true => [Single t]
+    | false, false => []
+    end
+  end.
